@@ -86,7 +86,7 @@ def lastLineOf (region : Bytes) (d : DataSess) (cb : Option Bool) : R Entry :=
         match c.out.getLast? with
         | some e => .ok e
         | none => .error (.err "NoData")
-      | .error .corrupt => .error (.err "CorruptMetaSection")
+      | .error (.corrupt _) => .error (.err "CorruptMetaSection")
       | .error .panic => .error .panic
       | .error (.halted _) => .error .panic
 
@@ -150,7 +150,7 @@ def dataLenLines (d : DataSess) : R Nat :=
 
 /-- map the reader's way of stopping to the API's error (`ReadError`) -/
 def readErr {σ : Type} : Stop σ → Fault
-  | .corrupt => .err "CorruptMetaSection"
+  | .corrupt _ => .err "CorruptMetaSection"
   | .panic => .panic
   | .halted _ => .panic
 
@@ -165,7 +165,7 @@ def dataReadFirstN (region : Bytes) (d : DataSess) (cb : Option Bool) (n : Nat) 
   match readRegion d.p cb firstNProc { n := n } region pos.start pos.stop pos.firstFull with
   | .ok c => .ok c.out
   | .error (.halted c) => .ok c.out
-  | .error .corrupt => .error (.err "CorruptMetaSection")
+  | .error (.corrupt _) => .error (.err "CorruptMetaSection")
   | .error .panic => .error .panic
 
 /-- `Data::read_resampling` with the harness's integer resampler -/
